@@ -288,21 +288,21 @@ func (p *c20) runOptDiff(c *verifsim.Chooser, st *Stats, render bool) *Outcome {
 		text = tg.script()
 		tags = tg.kind
 		globals, scoped = []string{"r", "y"}, nil
-		currentDesc.Store("optimizer differential: tagged call sites")
+		setDesc("optimizer differential: tagged call sites")
 	case src <= 4:
 		text = (&optGen{c: c}).script()
 		globals, scoped = analyseNames(text)
-		currentDesc.Store("optimizer differential: constant expressions")
+		setDesc("optimizer differential: constant expressions")
 	case src <= 6:
 		_ = tags
 		sc := GenScript(c, GenCfg{Funcs: true, Faults: c.Bool(), Hashes: true})
 		text, globals, scoped = sc.Text, sc.Globals, sc.Scoped
-		currentDesc.Store("optimizer differential: generated script")
+		setDesc("optimizer differential: generated script")
 	default:
 		pool := scriptPool()
 		text = pool[c.Intn(len(pool))]
 		globals, scoped = analyseNames(text)
-		currentDesc.Store("optimizer differential: pool script")
+		setDesc("optimizer differential: pool script")
 	}
 	o.Digest.Str(text)
 	st.probe(fmt.Sprintf("optdiff-source-%d", map[bool]int{true: 0, false: 1}[src <= 4]+map[bool]int{true: 1, false: 0}[src > 6]))
